@@ -45,15 +45,11 @@ MUTANTS = {
  'C01-nearest-by-x-only': ('C01', XM, 'distances = [(euclidean(targetatom.position, ref_pos(index)), index)', 'distances = [(abs(targetatom.position[0] - ref_pos(index)[0]), index)'),
  'C01-scale-on-restore-missing': ('C01', XM, 'return proyect * self.scale_factor', 'return proyect * (self.scale_factor if self.scale_factor else 1.0)'),
  'C02-restore-with-transposed-frame': ('C02', XM, 'return center + np.dot(proyection, vectores)', 'return center + np.dot(vectores, proyection)'),
- 'C02-one-atom-frame-fixed': ('C02', XM, 'rand_pos = [np.random.rand(3) + pos[0] for _ in range(3-n_atoms)]', 'rand_pos = [np.ones(3) * (k + 1) for k in range(3-n_atoms)]'),
+ 'C02-one-atom-frame-fixed-EQUIVALENT': ('C02', XM, 'rand_pos = [np.random.rand(3) + pos[0] for _ in range(3-n_atoms)]', 'rand_pos = [np.ones(3) * (k + 1) for k in range(3-n_atoms)]'),
  'C03-second-neighbour-any': ('C03', XM, 'ind1, ind2 = atom.closest_atoms()', 'ind1, ind2 = sorted(atom.bonds)[0], sorted(atom.bonds)[-1]'),
  'C03-origin-at-neighbour': ('C03', AUX, '    return (vec1, vec2, vec3), pos0', '    return (vec1, vec2, vec3), pos1'),
- 'C12-negative-index-off-by-one': ('C12', SY, 'index = len(self) + index', 'index = len(self) + index - 1'),
- 'C13-box-nine-always': ('C13', PAR, 'self._box_matrix = np.array(value)', 'self._box_matrix = np.array(value) + 0.0'),
- 'C14-empty-box-line-accepted': ('C14', PAR, "if not line.strip():", "if False:"),
  'C15-bonds-directed': ('C15', CT, '        atom.bonds.add(hash(self))\n', '        pass\n'),
  'C15-first-atom-only-connected': ('C15', 'gaddlemaps/components/__init__.py', 'return len(connected_atoms) == len(atoms)', 'return len(connected_atoms) >= len(atoms) - 1'),
- 'C17-angle-sign': ('C17', AUX, 'a = np.cos(theta / 2.0)', 'a = np.cos(-theta / 2.0) * 1.0000001'),
  'C18-move-to-about-first-atom': ('C18', RES, 'displacement = new_position - self.geometric_center', 'displacement = new_position - self.atoms_positions[0]'),
  'C18-move-in-place-on-shared-array': ('C18', RES, 'self.atoms_positions = self.atoms_positions + displacement', 'pos = self.atoms_positions\n        pos += displacement\n        self.atoms_positions = pos'),
  'C19-no-wrap-when-inside': ('C19', RES, 'vect -= np.round(vect)', 'vect -= np.round(vect) * (np.abs(vect) > 1)'),
